@@ -13,7 +13,7 @@ def obligations(ctx, cfg):
             StepAck(ctx, n, 2, k, 'ack-local', 'C02.b'),
             StepPull(ctx, 2, 2, 0, 'ack-local', 'C02.c-pull'),
             StepPost(ctx, 2, 2, 2, 'ack-local', 'C02.c-post'),
-            _streaming(ctx), SubscriptionActorHistory(ctx, 'C02.f-history-subscription-actor')]
+            _streaming(ctx), SubscriptionActorHistory(ctx, 'C02.f-history-subscription-actor'), _ack_wrapper(ctx)]
 
 
 def _streaming(ctx):
@@ -22,4 +22,17 @@ def _streaming(ctx):
     from props.C17 import StreamingControl
     ob = StreamingControl(ctx)
     ob.id = 'C02.e'
+    return ob
+
+
+def _ack_wrapper(ctx):
+    # "final once Acknowledge has returned": the wrapper every ack path goes through (unary, streaming, push) reports success only
+    # after the actor has answered, i.e. after the delivery is gone - an ack that is merely queued can still be overtaken by the expiry arm
+    import props.C16 as C16
+    from models_coll import Seq
+    if not hasattr(C16, 'PENDING_BUDGET'):
+        C16.PENDING_BUDGET = 2
+    ob = C16.Wrapper(ctx, 'Subscription', 'acknowledge_messages', lambda ctx_, p: [Seq([ack_id(ctx_, p.fresh('id'))], 1, 'vec')])
+    ob.id = 'C02.g-acknowledge-returns-after-the-actor-answered'
+    ob.desc = 'Subscription::acknowledge_messages (unary, streaming and push acks all go through it): Ok only after the request was enqueued AND the actor\'s reply arrived'
     return ob
